@@ -39,6 +39,49 @@ _INTS = (_rt.int8, _rt.int16, _rt.int32, _rt.int64, _rt.uint8)
 _default_dtype = [_rt.float64]
 
 GHOST = {"rng_draws": [], "rng_events": []}  # ghost RNG: every draw is a fresh symbol, recorded in order
+# stop-gradient tracking (off by default): with it on, x.detach() / x.data and every float tensor produced inside a no_grad
+# region hold fresh variables "sg#k" in place of their elements; TAPE["origin"] maps each such variable to the expression it
+# stands for.  Values are recovered by substituting the origins back; the autograd linearisation treats sg#k as constants.
+TAPE = {"on": False, "depth": 0, "origin": {}, "by_node": {}}
+
+
+def tape_reset(on):
+    TAPE.update(on=builtins.bool(on), depth=0, origin={}, by_node={})
+
+
+def _sg_sym(v):
+    n = v.n if isinstance(v, Sym) else E.node_of(v)
+    if n.op == "const" or n.sort != E.R or (n.op == "var" and n.val in TAPE["origin"]):
+        return v
+    hit = TAPE["by_node"].get(n.id)
+    if hit is None:
+        name = "sg#%d" % len(TAPE["origin"])
+        hit = E.var(name, E.R)
+        TAPE["origin"][name] = n
+        TAPE["by_node"][n.id] = hit
+    return Sym(hit)
+
+
+_sg_vec = np.frompyfunc(_sg_sym, 1, 1)
+
+
+def _sg_array(a):
+    out = _sg_vec(a)
+    if not isinstance(out, np.ndarray):
+        o = np.empty((), dtype=object)
+        o[()] = out
+        return o
+    return out
+
+
+def tape_restore(node):
+    """the value a node stands for: every stop-gradient variable replaced by its origin (repeatedly: origins may nest)."""
+    for _ in range(64):
+        fv = [v for v in E.free_vars(node) if v.val in TAPE["origin"]]
+        if not fv:
+            return node
+        node = E.substitute(node, {v: TAPE["origin"][v.val] for v in fv})
+    raise Unmodelled("stop-gradient origins nest too deeply")
 _fresh_counter = [0]
 
 
@@ -110,6 +153,8 @@ class T:
             a = _obj(a)
         elif a.dtype == object and not _trusted:
             a = _lift_all(a)
+        if TAPE["on"] and TAPE["depth"] > 0 and _is_float_dt(dt) and a.dtype == object and a.base is None and a.size:
+            a = _sg_array(a)
         self.a = a
         self.dtype = dt
         self.requires_grad = False
@@ -135,7 +180,7 @@ class T:
 
     @property
     def data(self):
-        return self
+        return self.detach()
 
     @property
     def real(self):
@@ -185,6 +230,8 @@ class T:
 
     # ---- no-op autograd surface
     def detach(self):
+        if TAPE["on"] and _is_float_dt(self.dtype) and self.a.dtype == object:
+            return T(_sg_array(self.a), self.dtype, True)
         return self
 
     def cpu(self):
@@ -1476,6 +1523,27 @@ def floor(x):
     return _map1(lambda v: Sym(E.fn("floor", v.n)), x)
 
 
+def round(x, decimals=0):
+    """torch.round: nearest integer, ties to even (IEEE roundTiesToEven)."""
+    if decimals != 0:
+        raise Unmodelled("torch.round with decimals")
+
+    def one(v):
+        if v.n.sort == E.I:
+            return v
+        if v.n.op == "const":
+            fl = math.floor(v.n.val + Fraction(1, 2))
+            if fl == v.n.val + Fraction(1, 2) and fl % 2 == 1:
+                fl -= 1
+            return Sym(E.const(Fraction(fl), E.R))
+        half = E.const(Fraction(1, 2), E.R)
+        f = E.fn("floor", E.add(v.n, half))
+        tie = E.and_(E.eq(E.add(v.n, half), E.mk("toreal", (f,), None, E.R)), E.eq(E.mod(f, E.const(2)), E.const(1)))
+        return Sym(E.ite(tie, E.sub(f, E.const(1)), f))
+
+    return _map1(one, x)
+
+
 def pow(x, e):
     if isinstance(e, (T, _rt.Tensor)):
         et = T(e)
@@ -2008,7 +2076,50 @@ def trace(x):
 
 
 def inverse(x):
-    raise Unmodelled("matrix inverse (LAPACK) -- needs an assumed contract")
+    """closed form (adjugate / determinant) for 1x1 and 2x2; the division carries the definedness condition det != 0."""
+    a = x.a
+    n = a.shape[-1]
+    if a.shape[-2] != n or n > 2:
+        raise Unmodelled("matrix inverse (LAPACK) beyond 2x2 -- needs an assumed contract")
+    out = np.empty(a.shape, dtype=object)
+    for pos in np.ndindex(*a.shape[:-2]):
+        m = a[pos]
+        if n == 1:
+            out[pos][0, 0] = Sym(E.const(Fraction(1), E.R)) / m[0, 0]
+        else:
+            d = m[0, 0] * m[1, 1] - m[0, 1] * m[1, 0]
+            out[pos][0, 0], out[pos][1, 1] = m[1, 1] / d, m[0, 0] / d
+            out[pos][0, 1], out[pos][1, 0] = -m[0, 1] / d, -m[1, 0] / d
+    return T(out, x.dtype)
+
+
+def _pinv(x, rcond=None, hermitian=False, **k):
+    """Moore-Penrose inverse of a symmetric 1x1 / 2x2 matrix, exact and piecewise by rank (forks the path on det = 0, trace = 0):
+    full rank: the inverse; rank one (O = t u u^T with t = trace): O / t^2; rank zero: 0.  The numerical cut-off is not modelled."""
+    a = x.a
+    n = a.shape[-1]
+    if not hermitian or a.shape[-2] != n or n > 2:
+        raise Unmodelled("torch.linalg.pinv: only hermitian=True up to 2x2 is modelled")
+    out = np.empty(a.shape, dtype=object)
+    zero = Sym(E.const(Fraction(0), E.R))
+    for pos in np.ndindex(*a.shape[:-2]):
+        m = a[pos]
+        if n == 1:
+            out[pos][0, 0] = (Sym(E.const(Fraction(1), E.R)) / m[0, 0]) if builtins.bool(m[0, 0] != 0) else zero
+            continue
+        # torch reads the lower triangle of a hermitian argument
+        d = m[0, 0] * m[1, 1] - m[1, 0] * m[1, 0]
+        if builtins.bool(d != 0):
+            out[pos][0, 0], out[pos][1, 1] = m[1, 1] / d, m[0, 0] / d
+            out[pos][0, 1] = out[pos][1, 0] = -m[1, 0] / d
+        else:
+            t = m[0, 0] + m[1, 1]
+            if builtins.bool(t != 0):
+                t2 = t * t
+                out[pos][0, 0], out[pos][1, 1], out[pos][0, 1], out[pos][1, 0] = m[0, 0] / t2, m[1, 1] / t2, m[1, 0] / t2, m[1, 0] / t2
+            else:
+                out[pos][0, 0] = out[pos][1, 1] = out[pos][0, 1] = out[pos][1, 0] = zero
+    return T(out, x.dtype)
 
 
 def det(x):
@@ -2046,6 +2157,15 @@ class _Linalg:
     @staticmethod
     def det(x):
         return det(x)
+
+    @staticmethod
+    def inv(x):
+        return inverse(x)
+
+    @staticmethod
+    def pinv(x, *a, **k):
+        h = _Linalg.hooks.get("pinv")
+        return h(x, *a, **k) if h is not None else _pinv(x, *a, **k)
 
     def __getattr__(self, name):
         h = _Linalg.hooks.get(name)
@@ -2319,10 +2439,29 @@ class _NoGrad:
         return f
 
 
-no_grad = _NoGrad
+class _NoGradTaped(_NoGrad):
+    """no_grad with stop-gradient tracking (see TAPE): float tensors built inside the region are constants of the tape."""
+
+    def __enter__(self):
+        TAPE["depth"] += 1
+        return self
+
+    def __exit__(self, *a):
+        TAPE["depth"] -= 1
+        return False
+
+    def __call__(self, f):
+        def g(*a, **k):
+            with self:
+                return f(*a, **k)
+
+        return g
+
+
+no_grad = _NoGradTaped
 enable_grad = _NoGrad
 set_grad_enabled = _NoGrad
-inference_mode = _NoGrad
+inference_mode = _NoGradTaped
 
 
 def is_grad_enabled():
